@@ -103,7 +103,7 @@ func triggerObjectScenario(r *Run) {
 	if r.Thorough() {
 		maxSteps = []int{8, 16, 32}[hdr.Draw(3)]
 	}
-	attrs := map[string]string{"level": "trigger_object", "trigger": cfg.String()}
+	attrs := map[string]string{"level": "trigger_object", "trigger": cfg.Kinds()}
 	r.Log("trigger object {%s}", cfg)
 	trig := cfg.prototype(1)()
 	model := newRefTrigger(cfg)
@@ -200,7 +200,7 @@ func triggerNodeScenario(r *Run) {
 		maxSteps = []int{6, 12, 24}[hdr.Draw(3)]
 	}
 	watermarked := cfg.watermark || hdr.Chance(1, 2)
-	attrs := map[string]string{"level": "node", "trigger": cfg.String()}
+	attrs := map[string]string{"level": "node", "trigger": cfg.Kinds()}
 	script := GenChangelog(t.Block(8*maxSteps+10), ChangelogCfg{MaxSteps: maxSteps, Watermarked: watermarked, Retractions: true, Dups: true,
 		Row: opRow, FinalWM: true, RetractSameTime: true})
 	r.Log("group by (a, tk) trigger={%s} watermarked=%v", cfg, watermarked)
